@@ -169,7 +169,7 @@ fn moon_line(mo: &LunarMonth) -> String {
 
 pub fn run(ctx: &Ctx) -> usize {
   let mut rng = ctx.rng(501);
-  let tyears: Vec<i64> = if ctx.quick() {
+  let tyears: Vec<i64> = if false {
     let mut v: Vec<i64> = (1900..=2150).step_by(5).collect();
     v.extend_from_slice(&[1, 2, 500, 1000, 1644, 1645, 1959, 1960, 1961, 1962, 7999, 8000, 8001, 9998, 9999]);
     for _ in 0..60 {
@@ -231,7 +231,7 @@ pub fn run(ctx: &Ctx) -> usize {
     sink.put(Ev::new("dt").i("s", 0).i("y", y).i("jump", ((b - a).abs() * 1000.0).round().min(2.0e9) as i64).i("year", ((c - b).abs() * 1000.0).round().min(2.0e9) as i64).i("v", (b * 1000.0).round().clamp(-2.0e9, 2.0e9) as i64).done());
   }
   // the inverse solvers on a raw grid of target longitudes over +-10,000 years around J2000 (no calendar involved)
-  let (sstep, mstep) = if ctx.quick() { (997i64, 397i64) } else { (29, 11) };
+  let (sstep, mstep) = if ctx.quick() { (97i64, 37i64) } else { (29, 11) };
   let mut k = -240_000i64;
   while k <= 240_000 {
     let w = k as f64 * PI / 12.0;
@@ -251,7 +251,7 @@ pub fn run(ctx: &Ctx) -> usize {
     k += mstep;
   }
   // closed forms in the era in which the calendar path uses them (1645..1960): target longitudes of those years
-  for y in (1645..1960i64).step_by(if ctx.quick() { 7 } else { 1 }) {
+  for y in (1645..1960i64).step_by(1) {
     for i in 0..24i64 {
       let cur = ((y as f64 - 2000.0) * 365.2422 + 15.2184 * i as f64 - 10.0).floor();
       let w = ((cur + 293.0) / 365.2422 * 24.0).floor() * PI / 12.0;
